@@ -13,6 +13,8 @@ import WB.Lemmas.C14Sort
 import WB.Lemmas.C14Real
 import WB.Lemmas.C14Groups
 import WB.Lemmas.C14Paral
+import WB.Lemmas.C14Cache
+import WB.Lemmas.C14Glue
 
 namespace WB.C14
 set_option linter.unusedSectionVars false
@@ -195,6 +197,74 @@ theorem tetraCumDOS_below (Ec Emin Emax : Nat → Rat) (th : Rat) (n : Nat) (kr 
     (hw : ∀ i, i < n → ef < Emin i → w i = 0) :
     tetraCumDOS Ec Emin Emax th n kr ef0 efN w = 0 :=
   tetraCumDOS_below_aux Ec Emin Emax th n kr ef0 efN ef w hk hmm h0 hbelow hw
+
+/-! ## glue: band selection, the weight cache, corner energies, the sum over K-points -/
+
+/-- T8 (selection).  `select_bands=None` and a selection of ALL bands give the same groups and weights as no selection
+    (groups `(a,b)` with `a < b ≤ n`, as `blocks_bounds` guarantees). -/
+theorem select_all_is_unselected (Ec Emin Emax : Nat → Rat) (th : Rat) (n : Nat) (kr : Bool) (emin emax : Rat) :
+    inRangeSel Ec Emin Emax th n kr emin emax none = inRange Ec Emin Emax th n kr emin emax ∧
+    ∀ ab : Nat × Nat, ab.1 < ab.2 → ab.2 ≤ n →
+      selHits (some (List.range n)) ab = true ∧ wsel (some (List.range n)) ab = 1 :=
+  ⟨inRangeSel_none Ec Emin Emax th n kr emin emax, fun ab h1 h2 => select_all n ab h1 h2⟩
+
+/-- T8 (selection, DOS).  With the Identity formula a window group contributes its mean band weight times the NUMBER OF
+    ITS SELECTED BANDS (so for a group of degenerate bands: the sum of the weights of the selected bands). -/
+theorem select_counts_selected_bands (w : Nat → Rat) (l : List Nat) (ab : Nat × Nat) (h1 : ab.1 < ab.2) :
+    groupWeightSel w (some l) ab * identTrace ab =
+      groupWeight w ab * ((l.filter (fun i => decide (ab.1 ≤ i) && decide (i < ab.2))).length : Rat) :=
+  select_weight_counts w (some l) ab h1
+
+/-- T9 (cache transparency).  `TetraWeights` evaluates a weight once per (Fermi array BY IDENTITY, der, ik, ib).  For
+    every history of queries — any arrays, orders and repetitions — interleaved with in-place modifications only of
+    arrays that this object has never seen (or that leave the contents unchanged), every answer equals the cache-free
+    computation on the contents at the time of the query.  `kern` is any pure weight kernel (`tetraKern`, the
+    parallelepiped one, …). -/
+theorem cache_transparent (kern : List Rat → Int → Nat → Nat → List Rat) (heap : Heap) (ops : List Op)
+    (hsafe : AllSafe kern ⟨heap, TW.empty⟩ ops) :
+    run kern ⟨heap, TW.empty⟩ ops = pureRun kern heap ops :=
+  cache_transparent_aux kern ops ⟨heap, TW.empty⟩ (cacheOk_empty kern heap) hsafe
+
+/-- T9' (the hidden state).  The hypothesis is needed: after an in-place change of a Fermi array that was already
+    queried, the object keeps returning the weights of the OLD contents (the key is the identity of the array). -/
+theorem cache_stale_after_inplace_change :
+    let kern : List Rat → Int → Nat → Nat → List Rat := fun ef _ _ _ => ef
+    let ops := [Op.mutate 7 [0, 1], Op.query 7 0 0 0, Op.mutate 7 [5, 6], Op.query 7 0 0 0]
+    run kern ⟨[], TW.empty⟩ ops = [none, some [0, 1], none, some [0, 1]] ∧
+    pureRun kern [] ops = [none, some [0, 1], none, some [5, 6]] := by
+  decide +kernel
+
+/-- T10 (corner energies).  `Data_K.tetraWeights` feeds the weight object with `E_K` and `E_K_corners_parallel()`.  If
+    these are the band energies `eps` at the FFT point and at the 8 corners of its cell (C33: the corner Hamiltonian is
+    the Hamiltonian at the shifted k-point), the weight of band `ib` is the parallelepiped weight of the band structure
+    itself, and all of T6 applies to it. -/
+theorem weights_from_band_structure {K : Type} [Field K] [LinearOrder K] [IsStrictOrderedRing K] {Q : Type} [Add Q]
+    (dmin : K) (der : Nat) (eps : Q → Nat → K) (kpt : Nat → Q) (shift : Nat × Nat × Nat → Q)
+    (EK : Nat → Nat → K) (Ecorn : Nat → Nat × Nat × Nat → Nat → K)
+    (hcen : ∀ ik ib, EK ik ib = eps (kpt ik) ib)
+    (hcorn : ∀ ik v ib, Ecorn ik v ib = eps (kpt ik + shift v) ib) (ik ib : Nat) (ef : K) :
+    dataKWeightParal dmin der EK Ecorn ik ib ef =
+      paralWeight dmin der true (eps (kpt ik) ib) (fun v => eps (kpt ik + shift v) ib) ef := by
+  unfold dataKWeightParal
+  rw [hcen]
+  congr 1
+  funext v
+  exact hcorn ik v ib
+
+/-- T11 (run level).  `run()` reports `Σ_K factor_K · (mean over the FFT points of K)`.  With `Σ_K factor_K = 1` (C06)
+    the tetrahedron CumDOS is NB once every FFT point of every K-point reports NB (`tetraCumDOS_above`), 0 when all
+    report 0 (`tetraCumDOS_below`) … -/
+theorem run_total_of_constant (Ks : List (Rat × List Rat)) (c : Rat)
+    (hsum : (Ks.map (fun K => K.1)).sum = 1)
+    (hK : ∀ K ∈ Ks, K.2 ≠ [] ∧ ∀ x ∈ K.2, x = c) : runTotal Ks = c :=
+  runTotal_const Ks c hsum hK
+
+/-- … and, the factors being non-negative, it is monotone in the per-point values (hence non-decreasing in the Fermi
+    level and between 0 and NB). -/
+theorem run_total_monotone (Ks Ks' : List (Rat × List Rat))
+    (h : List.Forall₂ (fun K K' => K.1 = K'.1 ∧ 0 ≤ K.1 ∧ K.2.length = K'.2.length ∧ List.Forall₂ (· ≤ ·) K.2 K'.2) Ks Ks') :
+    runTotal Ks ≤ runTotal Ks' :=
+  runTotal_mono Ks Ks' h
 
 /-! ## non-vacuity -/
 
